@@ -402,6 +402,9 @@ Qed.
 Lemma store_hits s e : hits (store s e) = hits s.
 Proof. unfold store, hits. destruct (dtable s); [reflexivity|]. destruct (_ <=? _); reflexivity. Qed.
 
+Lemma cond_store_hits (c : bool) s e : hits (if c then store s e else s) = hits s.
+Proof. destruct c; [apply store_hits|reflexivity]. Qed.
+
 Lemma mid_okC lfuel : forall fuel, rec_okC (mid basis aw lfuel fuel).
 Proof.
   induction fuel as [|f IH]; intros s g bphi bdelta cur s' cur' w E; cbn [mid] in E.
@@ -422,7 +425,7 @@ Proof.
       injection E as <- <- _.
       apply (mid_loop_okC _ g _ _ IH) in El. destruct El as [Hmono2 Hrest].
       split.
-      { rewrite store_hits.
+      { rewrite cond_store_hits.
         pose proof (gen_children_hits _ _ _ _ _ _ _ Egen) as Hgh.
         destruct (d_phi cur2 =? 0); unfold hits in *; cbn in *; lia. }
       intros Heq A Hg Hfr HSp Hh Hok Hb1 Hb2.
@@ -432,7 +435,7 @@ Proof.
         pose proof (solved_exceeded _ _ _ _ Hc (Hs Hne) Hb1 Hb2) as Hx. congruence. }
       destruct (gen_children_okC (anc s) g _ Hg Htm _ _ _ _ _ (fun m H => H) Egen) as (Hg1 & Hd1 & Hgen).
       assert (Hs2 : hits s2 = hits s1 /\ hits s1 = hits s).
-      { rewrite store_hits in Heq. destruct (d_phi cur2 =? 0); unfold hits in *; cbn in *; lia. }
+      { rewrite cond_store_hits in Heq. destruct (d_phi cur2 =? 0); unfold hits in *; cbn in *; lia. }
       destruct Hs2 as [Hs2 Hs1].
       destruct (Hgen Hs1 (Forall_nil _)) as (Hcs & Hcov).
       assert (Hcomp : complete basis g cs).
